@@ -117,6 +117,7 @@ type poolInfo struct {
 	faithful bool
 	norm     string
 	coarse   string
+	qmarks   bool // holds positional `?` placeholders (the tokenizer numbers them :v1, :v2, ... in order of appearance)
 }
 
 func analyse(text string, pg bool) poolInfo {
@@ -132,6 +133,12 @@ func analyse(text string, pg bool) poolInfo {
 	pi.faithful = printerFaithful(st)
 	pi.norm = normText(text, pg)
 	pi.coarse = coarseText(text, pg)
+	toks, _ := lex(text, pg)
+	for _, t := range toks {
+		if t.kind == tParam && t.text == "?" {
+			pi.qmarks = true
+		}
+	}
 	return pi
 }
 
@@ -566,6 +573,14 @@ func refPattern(p rPattern, src poolInfo, x xInfo) tri {
 	if p.from == x.from {
 		if p.d.Printed && !src.faithful {
 			return unsure
+		}
+		// a placeholder that swallows a positional `?` renumbers the ones after it (:v2 becomes :v1): not asserted
+		if x.info.qmarks {
+			for _, a := range p.d.Applied {
+				if a == "subquery" || a == "where" || a == "list" {
+					return unsure
+				}
+			}
 		}
 		return match
 	}
